@@ -15,7 +15,7 @@ from common import REPO, WORK
 SUFFIX = os.environ.get("VERIF_KANI_TARGET_SUFFIX", "")
 MIR_DIR = os.path.join(WORK, "mir" + SUFFIX)
 POOL_PROPS = {"C01", "C02", "C09", "C10", "C13", "C20"}
-MIR_PROPS = POOL_PROPS | {"C06", "C15", "C08", "C03", "C04", "C14", "C05", "C11", "C19", "C17"}
+MIR_PROPS = POOL_PROPS | {"C06", "C15", "C08", "C03", "C04", "C14", "C05", "C11", "C19", "C17", "C12"}
 
 
 def source_hash():
@@ -227,6 +227,33 @@ def _run_property(pid, tier, seed, logdir):
         except (Unsupported, Unwind) as e:
             obligations.append(dict(name="c06_cache_wrapper_key_and_gate", engine="mirsym", functions=[], bounds="", oracle="", stubs=[], tier=tier,
                                     verdict="inconclusive", reason=f"outside the encoder's subset: {e}", queries=0, solver_time_s=0, failed=[]))
+        return obligations
+    if pid == "C12":
+        from mirsym import props_dhcpwire, enums as _en
+        structs = _en.scan_structs(REPO)
+        jobs = []
+        for sh in props_dhcpwire.shapes(tier):
+            def job(sh=sh):
+                t0 = time.time()
+                name = "c12_message_roundtrip_" + sh.name
+                bounds = ("Dhcp::serialise then dhcppkt::parse from MIR on a message with hardware-address length %d, sname %d / file %d NUL-free octets and the options (code, value length) %s: "
+                          "every header field, address and option octet symbolic (values longer than 48 octets: first and last 3 octets symbolic, the rest a fixed pattern)" % (sh.hlen, sh.sname, sh.file, sh.options))
+                oracle = ("decode(encode(m)) = m field by field and option by option; the octets in between read per RFC 2131 figure 1 (offsets, network byte order, zero padding, magic cookie) and "
+                          "RFC 2132 / RFC 3396 (code, one-octet length, value; > 255 octets split in order; empty value = one empty instance; end option last)")
+                try:
+                    failed, ex, npaths, kinds = props_dhcpwire.obligation(prog, en, structs, sh)
+                    for f in failed:
+                        f["check"] = name
+                    return dict(name=name, engine="mirsym", functions=sorted(f.split("::")[-1] for f in ex.encoded_fns), bounds=bounds, oracle=oracle,
+                                stubs=["option table (HashMap<DhcpOption, Vec<u8>>) = map with concrete option codes, iterated in insertion order (the reference decoder accepts any order)",
+                                       "HashMap::entry(..).or_default() = get-or-insert on that map"] + sorted(ex.used_summaries),
+                                tier=tier, **_vr(failed, ex), queries=ex.queries, solver_time_s=round(ex.solver_time, 2), failed=_dedup(failed), paths=npaths,
+                                path_kinds={str(k): v for k, v in kinds.items()}, wall_s=round(time.time() - t0, 1))
+                except (Unsupported, Unwind) as e:
+                    return dict(name=name, engine="mirsym", functions=[], bounds=bounds, oracle=oracle, stubs=[], tier=tier, verdict="inconclusive",
+                                reason=f"outside the encoder's subset: {e}", queries=0, solver_time_s=0, failed=[])
+            jobs.append(("c12_message_roundtrip_" + sh.name, job))
+        obligations.extend(run_jobs(jobs))
         return obligations
     if pid == "C17":
         from mirsym import props_radv, enums as _en
